@@ -109,6 +109,8 @@ fn alphabet(c: &AfConsts, twin: bool) -> Vec<AOp> {
         a.push(sw(a_to_b, true, HUGE, Tgt::Mid(2), false)); // across groups, ends inside a group
         a.push(sw(a_to_b, true, 3_000_000, Tgt::None, true)); // about one spacing, amount-limited
         a.push(sw(a_to_b, false, 700_000, Tgt::None, false)); // exact out
+        a.push(sw(a_to_b, false, 700_000, Tgt::None, true)); // exact out through the v2 handler (its own post-processing of the swap result)
+        a.push(sw(a_to_b, false, 4_000_000, Tgt::None, true)); // exact out across tick groups, v2
         a.push(sw(a_to_b, true, HUGE, Tgt::Tick(if a_to_b { -400 } else { 400 }), true)); // beyond saturation; b->a crosses the zero-liquidity gap
         a.push(sw(a_to_b, true, 1, Tgt::None, true)); // dust: everything is fee, the price does not move
         a.push(sw(a_to_b, true, HUGE, Tgt::EdgeOff(3, if a_to_b { -1 } else { 1 }), false)); // one price unit past the third boundary
